@@ -98,7 +98,7 @@ class HistResult:
 
 
 def check_histories(rep, fsdbh, cases, mode="inline", known_d7=False, oracle="spec", max_report=3,
-                    correspondence="fsdbh hist (real client) vs coq/Core.v (mstep) vs coq/Spec.v (astep)"):
+                    correspondence="fsdbh hist (real client) vs coq/Client.v (cstep over Core.mstep) vs coq/Spec.v (astep)"):
     """three-way comparison; returns statistics. oracle: 'spec' (abstract machine) or 'kv' (key-value map)"""
     impl = run_sharded(fsdbh, "hist", cases, extra=[mode])
     model = [canon(c, o) for c, o in zip(cases, run_model("hist", cases))]
@@ -116,7 +116,9 @@ def check_histories(rep, fsdbh, cases, mode="inline", known_d7=False, oracle="sp
     reported = 0
     for k, c in enumerate(cases):
         H, auto = flags[k]
-        usable = H if oracle == "spec" else auto
+        # with the client layer (Client.v: a handle that ended refuses writes itself) the refinement theorem
+        # client_refines_spec has NO hypothesis: the abstract machine is the oracle for every history
+        usable = True if oracle == "spec" else auto
         # the refinement theorem at run time (extracted model vs extracted spec under H; the key-value
         # machine does not model Reopen's key reordering, so kv cases with reopen are skipped here)
         if usable and (oracle == "spec" or reopen_free(c)) and model[k] != spec[k]:
@@ -190,7 +192,7 @@ def investigate(rep, fsdbh, case, mode, oracle, known_d7, correspondence, observ
     if flaky:
         payload["nondeterministic"] = flaky
     d = first_diff(i, s)
-    usable = H if oracle == "spec" else auto
+    usable = True if oracle == "spec" else auto
     if d is not None and (usable or not (known_d7 and is_late_write_divergence(small, i, s, d))):
         ops = [l for l in small.split("\n") if not l.startswith("keytab")]
         payload["failing_step"] = ops[d] if d < len(ops) else None
@@ -266,7 +268,7 @@ def vm_crosscheck(cases, raw_model_outs):
         return 0
     d = tempfile.mkdtemp(prefix="verif-histvm-")
     try:
-        src = ("From Coq Require Import List NArith.\nFrom FsDb Require Import Core Spec.\nImport ListNotations.\nOpen Scope N_scope.\n"
+        src = ("From Coq Require Import List NArith.\nFrom FsDb Require Import Core Spec Client.\nImport ListNotations.\nOpen Scope N_scope.\n"
                "Definition out_eqb (a b : out) : bool := match a, b with\n"
                " | OutUnit, OutUnit => true | OutHandle x, OutHandle y => N.eqb x y | OutVal x, OutVal y => N.eqb x y\n"
                " | OutKeys x, OutKeys y => if list_eq_dec N.eq_dec x y then true else false\n"
@@ -275,7 +277,7 @@ def vm_crosscheck(cases, raw_model_outs):
                " | _, _ => false end.\n"
                "Fixpoint outs_eqb (a b : list out) : bool := match a, b with [], [] => true | x :: a', y :: b' => andb (out_eqb x y) (outs_eqb a' b') | _, _ => false end.\n"
                "Fixpoint mism (i : nat) (cs : list (list op * list out)) : list nat := match cs with [] => []\n"
-               " | (ops, ex) :: r => if outs_eqb (mrun ops) ex then mism (S i) r else i :: mism (S i) r end.\n"
+               " | (ops, ex) :: r => if outs_eqb (crun ops) ex then mism (S i) r else i :: mism (S i) r end.\n"
                "Definition cases : list (list op * list out) := [\n  %s\n].\n"
                "Definition M := Eval vm_compute in mism 0 cases.\nPrint M.\n" % ";\n  ".join(terms))
         with open(os.path.join(d, "cases.v"), "w") as f:
